@@ -922,6 +922,10 @@ struct Ctx {
     repo: String,
     files: HashMap<String, syn::File>,
     srcs: HashMap<String, String>,
+    // names of functions that have a definition in the generated file (prelude stubs, @raw items,
+    // targets): a call to one of them is a call to a CONTRACT; anything else found in the same source
+    // file is a helper without a contract
+    predefined: std::collections::BTreeSet<String>,
 }
 
 impl Ctx {
@@ -984,6 +988,115 @@ fn strip_vis_and_attrs_sig(sig: &mut syn::Signature, drop_generics: &[String], k
             syn::FnArg::Typed(t) => t.attrs.clear(),
             syn::FnArg::Receiver(r) => r.attrs.clear(),
         }
+    }
+}
+
+// R15: a helper of the same source file that has no contract in the unit (typically introduced by an
+// extract-method refactoring) is INLINED at its call sites when that is semantics-preserving by
+// construction: no `return`, no `?`, no loop in its body, not recursive, receiver (if any) is the
+// caller's own `self`. The caller is then verified against the helper's real code.
+struct HelperBody { params: Vec<(syn::Pat, syn::Type)>, block: syn::Block, has_self: bool }
+struct InlineScan { bad: bool, own: String }
+impl<'ast> syn::visit::Visit<'ast> for InlineScan {
+    fn visit_expr(&mut self, e: &'ast Expr) {
+        match e {
+            Expr::Return(_) | Expr::Try(_) | Expr::While(_) | Expr::Loop(_) | Expr::ForLoop(_) | Expr::Break(_) | Expr::Continue(_) => self.bad = true,
+            Expr::Call(c) => { if let Expr::Path(p) = &*c.func { if p.path.segments.last().map(|x| x.ident == self.own).unwrap_or(false) { self.bad = true; } } }
+            Expr::MethodCall(m) => { if m.method == self.own { self.bad = true; } }
+            Expr::Macro(m) => { let n = m.mac.path.segments.last().map(|x| x.ident.to_string()).unwrap_or_default(); if n == "panic" || n == "unreachable" || n == "todo" || n == "unimplemented" { } }
+            _ => {}
+        }
+        syn::visit::visit_expr(self, e);
+    }
+}
+fn collect_inlinable(items: &[syn::Item], impl_of: Option<&String>, skip: &std::collections::BTreeSet<String>) -> BTreeMap<String, HelperBody> {
+    let mut out: BTreeMap<String, HelperBody> = BTreeMap::new();
+    let mut dup: std::collections::BTreeSet<String> = Default::default();
+    let mut consider = |sig: &syn::Signature, block: &syn::Block, out: &mut BTreeMap<String, HelperBody>| {
+        let name = sig.ident.to_string();
+        if skip.contains(&name) { return; }
+        let mut sc = InlineScan { bad: false, own: name.clone() };
+        syn::visit::Visit::visit_block(&mut sc, block);
+        if sc.bad { return; }
+        let mut params = Vec::new();
+        let mut has_self = false;
+        for a in &sig.inputs {
+            match a {
+                syn::FnArg::Receiver(_) => has_self = true,
+                syn::FnArg::Typed(pt) => params.push(((*pt.pat).clone(), (*pt.ty).clone())),
+            }
+        }
+        if out.contains_key(&name) { dup.insert(name.clone()); }
+        out.insert(name, HelperBody { params, block: block.clone(), has_self });
+    };
+    for it in items {
+        match it {
+            syn::Item::Fn(f) => consider(&f.sig, &f.block, &mut out),
+            syn::Item::Impl(im) => {
+                if im.trait_.is_some() { continue; }
+                if let Some(want) = impl_of {
+                    let base: String = want.split('<').next().unwrap_or("").trim().to_string();
+                    if type_last_ident(&im.self_ty) != base { continue; }
+                } else { continue; }
+                for ii in &im.items { if let syn::ImplItem::Fn(f) = ii { consider(&f.sig, &f.block, &mut out); } }
+            }
+            _ => {}
+        }
+    }
+    for d in dup { out.remove(&d); }
+    out
+}
+struct Inliner<'a> { helpers: &'a BTreeMap<String, HelperBody>, inlined: Vec<String>, n: usize }
+impl<'a> Inliner<'a> {
+    fn build(&mut self, name: &str, args: Vec<Expr>) -> Option<Expr> {
+        let h = self.helpers.get(name)?;
+        if h.params.len() != args.len() { return None; }
+        let k = self.n; self.n += 1;
+        let mut stmts: Vec<Stmt> = Vec::new();
+        // arguments are evaluated in the caller's scope, in order, before any parameter is bound
+        let mut tmps = Vec::new();
+        for (i, a) in args.into_iter().enumerate() {
+            let id = syn::Ident::new(&format!("__arg{}_{}", k, i), Span::call_site());
+            stmts.push(syn::parse_quote!(let #id = #a;));
+            tmps.push(id);
+        }
+        for ((pat, ty), id) in h.params.iter().zip(tmps.iter()) {
+            // `impl Trait` parameter types cannot annotate a `let`
+            if matches!(ty, syn::Type::ImplTrait(_)) { stmts.push(syn::parse_quote!(let #pat = #id;)); }
+            else { stmts.push(syn::parse_quote!(let #pat: #ty = #id;)); }
+        }
+        let body = &h.block;
+        self.inlined.push(name.to_string());
+        Some(syn::parse_quote!({ #(#stmts)* #body }))
+    }
+}
+impl<'a> VisitMut for Inliner<'a> {
+    fn visit_expr_mut(&mut self, e: &mut Expr) {
+        visit_mut::visit_expr_mut(self, e);
+        let mut repl: Option<Expr> = None;
+        match e {
+            Expr::Call(c) => {
+                if let Expr::Path(p) = &*c.func {
+                    let segs: Vec<String> = p.path.segments.iter().map(|x| x.ident.to_string()).collect();
+                    let ok = segs.len() == 1 || (segs.len() == 2 && segs[0] == "Self");
+                    if ok && p.path.segments.iter().all(|x| x.arguments.is_none()) {
+                        let name = segs.last().unwrap().clone();
+                        if self.helpers.get(&name).map(|h| !h.has_self).unwrap_or(false) {
+                            repl = self.build(&name, c.args.iter().cloned().collect());
+                        }
+                    }
+                }
+            }
+            Expr::MethodCall(m) => {
+                let recv_is_self = matches!(&*m.receiver, Expr::Path(p) if p.path.is_ident("self"));
+                let name = m.method.to_string();
+                if recv_is_self && m.turbofish.is_none() && self.helpers.get(&name).map(|h| h.has_self).unwrap_or(false) {
+                    repl = self.build(&name, m.args.iter().cloned().collect());
+                }
+            }
+            _ => {}
+        }
+        if let Some(r) = repl { *e = r; }
     }
 }
 
@@ -1103,6 +1216,7 @@ fn emit_target(ctx: &mut Ctx, unit: &Unit, t: &Target) -> Emitted {
         let visible = unit.visible(&t.spec_file);
         let mut all: Vec<&Rule> = t.rules.iter().collect();
         all.extend(unit.rules.iter().filter(|r| visible.contains(&r.file)));
+        all.sort_by_key(|r| r.fallback);
         for (gi, r) in all.iter().filter(|r| r.kind == "guard").enumerate() {
             let ts = match instantiate(&r.tpl, &pat::Binds::new()) { Ok(t) => t, Err(m) => die(&format!("{}: {}", r.origin, m)) };
             // `RESET ;; ACQUIRE`: ACQUIRE (optional) replaces the guard statement itself
@@ -1135,6 +1249,7 @@ fn emit_target(ctx: &mut Ctx, unit: &Unit, t: &Target) -> Emitted {
     rules.extend(t.rules.iter());
     let visible = unit.visible(&t.spec_file);
     rules.extend(unit.rules.iter().filter(|r| visible.contains(&r.file)));
+    rules.sort_by_key(|r| r.fallback); // (stable) generic fallbacks after every specific rule
     let n_rules = rules.len();
     // by-value `mut self` receiver (unsupported by Verus): `self` + `let mut __self = self;` + rename
     let mut_self = matches!(sig.inputs.first(), Some(syn::FnArg::Receiver(r)) if r.reference.is_none() && r.mutability.is_some());
@@ -1164,6 +1279,28 @@ fn emit_target(ctx: &mut Ctx, unit: &Unit, t: &Target) -> Emitted {
     for (mp, reset, acq) in &guard_jobs {
         if !apply_guard(&mut block, mp, reset, acq, true) {
             die(&format!("internal: guard marker lost in target {}", t.name));
+        }
+    }
+    // R15: calls that survived the lowering rules and name a contract-less helper of the same source
+    // file are inlined (see Inliner); the helper's body is lowered with the same rules first
+    let mut inlined_helpers: Vec<String> = Vec::new();
+    if !t.any_impl {
+        let mut skip = ctx.predefined.clone();
+        skip.insert(t.fn_name.clone());
+        let mut helpers = collect_inlinable(&file.items, t.impl_of.as_ref(), &skip);
+        if !helpers.is_empty() {
+            for (_, h) in helpers.iter_mut() {
+                let mut lw2 = Lower { forloops: 1000, drop_generics: drop_g.clone(), rules: lw.rules.clone(), counts: vec![0; n_rules], notes: BTreeMap::new() };
+                lw2.visit_block_mut(&mut h.block);
+                for (_, ty) in h.params.iter_mut() { lw2.visit_type_mut(ty); }
+            }
+            for _ in 0..3 {
+                let mut il = Inliner { helpers: &helpers, inlined: Vec::new(), n: inlined_helpers.len() * 10 };
+                il.visit_block_mut(&mut block);
+                if il.inlined.is_empty() { break; }
+                inlined_helpers.extend(il.inlined);
+            }
+            if !inlined_helpers.is_empty() { lw.note("R15 contract-less helper of the same file inlined at its call site"); }
         }
     }
     // splices anchored on the LOWERED body (statements produced by @stmt/@forloop templates)
@@ -1437,6 +1574,7 @@ fn emit_target(ctx: &mut Ctx, unit: &Unit, t: &Target) -> Emitted {
         "serves": t.serves,
         "emitted_name": emitted_name,
         "auto_extracted_without_contract": t.any_impl,
+        "inlined_helpers": inlined_helpers,
         "calls": calls.into_iter().collect::<Vec<_>>(),
         "calls_any": calls_any.into_iter().collect::<Vec<_>>(),
     });
@@ -1466,7 +1604,8 @@ fn emit_struct(ctx: &mut Ctx, unit: &Unit, file: &str, name: &str, rename: Optio
         None => die(&format!("lost anchor: item {} not found in {}", name, file)),
     };
     let visible = unit.visible(spec_file);
-    let rules: Vec<&Rule> = unit.rules.iter().filter(|r| visible.contains(&r.file)).collect();
+    let mut rules: Vec<&Rule> = unit.rules.iter().filter(|r| visible.contains(&r.file)).collect();
+    rules.sort_by_key(|r| r.fallback);
     let n = rules.len();
     let mut lw = Lower { forloops: 0, drop_generics: unit.drop_generics.clone(), rules, counts: vec![0; n], notes: BTreeMap::new() };
     let line = it.span().start().line;
@@ -1558,7 +1697,7 @@ fn main() {
         Ok(u) => u,
         Err(e) => die(&format!("bad contract file: {}", e)),
     };
-    let mut ctx = Ctx { repo: repo.clone(), files: HashMap::new(), srcs: HashMap::new() };
+    let mut ctx = Ctx { repo: repo.clone(), files: HashMap::new(), srcs: HashMap::new(), predefined: Default::default() };
 
     let mut out = String::new();
     out.push_str("// GENERATED by vextract on every run from the current /repo working tree — do not edit.\n");
@@ -1588,6 +1727,33 @@ fn main() {
     let mut obligs: Vec<Oblig> = Vec::new();
     let mut functions: Vec<serde_json::Value> = Vec::new();
     let mut items_info: Vec<serde_json::Value> = Vec::new();
+
+    // every function name that has a definition in the generated file: prelude stubs, @raw items, targets
+    {
+        let mut names: std::collections::BTreeSet<String> = Default::default();
+        let mut scan = |txt: &str, names: &mut std::collections::BTreeSet<String>| {
+            for part in txt.split("fn ").skip(1) {
+                let name: String = part.chars().take_while(|c| c.is_alphanumeric() || *c == '_').collect();
+                if !name.is_empty() { names.insert(name); }
+            }
+        };
+        scan(&out, &mut names);
+        for it in &unit.items {
+            match it {
+                Item::Raw(txt) => scan(txt, &mut names),
+                Item::Target(t) => {
+                    names.insert(t.fn_name.clone());
+                    if let Some(r) = &t.rename { names.insert(r.clone()); }
+                    if let Some(sg) = &t.sig { scan(sg, &mut names); }
+                }
+                _ => {}
+            }
+        }
+        for p in &unit.lemmas {
+            if let Ok(txt) = std::fs::read_to_string(p) { scan(&txt, &mut names); }
+        }
+        ctx.predefined = names;
+    }
 
     // group consecutive targets with the same @in header
     let mut open_impl: Option<String> = None;
